@@ -5,6 +5,7 @@
   field `K` (so for ℚ, on which the driver executes the same definitions, and for ℝ).
 -/
 import Proofs.C01_Lemmas
+import Proofs.C01_Object
 import Mathlib.Tactic.LinearCombination
 import Mathlib.Tactic.NormNum
 
@@ -478,5 +479,39 @@ theorem abc_rebuild_normal_clean (thr : K) (bx : Box K) (hcl : IsClean thr bx) (
   simp only [setAbc?, e, Option.map_some]
   have : cleanVects thr bx.vects = bx.vects := hcl
   rw [this]
+
+/-! ### the clauses on the *object*, after any history of setters and reads -/
+
+/-- on every object reached from `Box()` by any sequence of calls, `reciprocal_vects` (cached or
+    not) is dual to the *current* vectors. -/
+theorem obj_recip_dual (thr : K) (ops : List (Op K)) (m : M3 K)
+    (h : ((CBox.fresh : CBox K).after thr ops |>.read .recip).2 = .mat m) :
+    m.mul ((CBox.fresh : CBox K).after thr ops).box.vects.transpose = M3.one := by
+  have hc := obj_after_coherent thr ops (CBox.fresh : CBox K) fresh_coherent
+  have e := (obj_step_refines thr _ hc (.read .recip)).2
+  simp only [CBox.step, stepPlain, ReadOp.eval] at e
+  rw [h] at e
+  split at e
+  · cases e
+  · rename_i hd
+    simp only [Obs.mat.injEq] at e
+    rw [e]; exact (reciprocal_dual _ hd).1
+
+/-- on every such object with a non-degenerate cell, `position_cartesian_to_relative` undoes
+    `position_relative_to_cartesian`, whatever was cached before. -/
+theorem obj_c2r_r2c (thr : K) (ops : List (Op K)) (s : V3 K)
+    (hd : ((CBox.fresh : CBox K).after thr ops).box.vects.det ≠ 0) :
+    (((CBox.fresh : CBox K).after thr ops).read
+      (.c2r (((CBox.fresh : CBox K).after thr ops).box.relToCart s))).2 = .vec s := by
+  have hc := obj_after_coherent thr ops (CBox.fresh : CBox K) fresh_coherent
+  have e := (obj_step_refines thr _ hc (.read (.c2r (((CBox.fresh : CBox K).after thr ops).box.relToCart s)))).2
+  simp only [CBox.step, stepPlain, ReadOp.eval, hd, if_false] at e
+  rw [e, (rel_cart_inverse _ hd s s).1]
+
+/-- non-vacuity: a history with a warm cache, a change of the cell and an origin move, ending in a
+    non-degenerate cell different from the unit cell. -/
+example : ((CBox.fresh : CBox ℚ).after (1/1000000000)
+    [.set (.lengths ⟨2, 3, 4, 1/2, 0, 1⟩ ⟨1, 2, 3⟩), .read .recip, .set (.attrVects ⟨⟨2, 0, 0⟩, ⟨1, 3, 0⟩, ⟨0, 1, 5⟩⟩),
+     .read (.c2r ⟨1, 1, 1⟩), .set (.attrOrigin ⟨0, 1, 0⟩)]).box.vects.det ≠ 0 := by decide +kernel
 
 end Atomman.C01
